@@ -8,6 +8,7 @@ import (
 	"os"
 	"runtime"
 	"sync"
+	"sync/atomic"
 	"testing"
 	"time"
 
@@ -94,10 +95,32 @@ func c21SetErr(dst *error, e error) bool {
 }
 
 type c21Seq struct {
-	tb   ev.TB
-	rec  *ev.Rec
-	c    *c21Case
-	next byte // next stream byte to write (1,2,3.. so stale zero bytes are visible)
+	tb  ev.TB
+	rec *ev.Rec
+	c   *c21Case
+	off int // stream offset of the next byte to write
+}
+
+// c21Pat is the stream byte at offset k: never zero-run, no short period (a shift by 256 or 65536 is visible).
+func c21Pat(k int) byte { return byte(k*7 + (k>>8)*13 + (k>>16)*5 + 1) }
+
+// c21Diff describes where two byte slices differ, without dumping large buffers.
+func c21Diff(got, want []byte) string {
+	i := 0
+	for i < len(got) && i < len(want) && got[i] == want[i] {
+		i++
+	}
+	e := func(b []byte) []byte {
+		if i >= len(b) {
+			return nil
+		}
+		j := i + 8
+		if j > len(b) {
+			j = len(b)
+		}
+		return b[i:j]
+	}
+	return fmt.Sprintf("first difference at byte %d of %d: got %x.. want %x..", i, len(got), e(got), e(want))
 }
 
 func (s *c21Seq) fail(step int, key, format string, args ...any) bool {
@@ -111,7 +134,7 @@ func (s *c21Seq) fail(step int, key, format string, args ...any) bool {
 // c21RunSeq executes the sequential machine. Ops that are not enabled in the
 // current model state are skipped (counted), so any op list is a valid case.
 func c21RunSeq(tb ev.TB, rec *ev.Rec, c *c21Case, gen string) {
-	s := &c21Seq{tb: tb, rec: rec, c: c, next: 1}
+	s := &c21Seq{tb: tb, rec: rec, c: c}
 	pool := &sync.Pool{New: func() interface{} { return pipe.NewFixedBuffer(make([]byte, c.Cap)) }}
 	newPipe := func() *pipe.Pipe {
 		if c.Pooled {
@@ -122,7 +145,7 @@ func c21RunSeq(tb ev.TB, rec *ev.Rec, c *c21Case, gen string) {
 	p := newPipe()
 	m := &c21Model{cap: c.Cap}
 	fnCalls := 0
-	var slideWrite, closeBuffered, refused, breakBuffered, afterRelease, reuse, eofReplaced bool
+	var slideWrite, closeBuffered, refused, breakBuffered, afterRelease, reuse, eofReplaced, backlog64k bool
 	skipped := 0
 	var fpr bytes.Buffer
 	fmt.Fprintf(&fpr, "%d/%v:", c.Cap, c.Pooled)
@@ -131,10 +154,7 @@ func c21RunSeq(tb ev.TB, rec *ev.Rec, c *c21Case, gen string) {
 		case "write":
 			d := make([]byte, op.N)
 			for j := range d {
-				d[j] = s.next + byte(j)
-				if d[j] == 0 {
-					d[j] = 1
-				}
+				d[j] = c21Pat(s.off + j)
 			}
 			var n int
 			var err error
@@ -173,11 +193,14 @@ func c21RunSeq(tb ev.TB, rec *ev.Rec, c *c21Case, gen string) {
 						return
 					}
 				}
+				if m.r > 0 && len(m.queue) <= 65536 && len(m.queue)+n > 65536 {
+					backlog64k = true
+				}
 				if m.noteWrite(n, len(d)) {
 					slideWrite = true
 				}
 				m.queue = append(m.queue, d[:n]...)
-				s.next += byte(n)
+				s.off += n
 			}
 			fmt.Fprintf(&fpr, "w%d,", op.N)
 		case "read":
@@ -222,7 +245,7 @@ func c21RunSeq(tb ev.TB, rec *ev.Rec, c *c21Case, gen string) {
 					return
 				}
 				if !bytes.Equal(buf[:n], m.queue[:n]) {
-					s.fail(i, "read-wrong-bytes", "Read(%d) returned %x, queue head is %x", op.N, buf[:n], m.queue[:n])
+					s.fail(i, "read-wrong-bytes", "Read(%d) with %d bytes buffered returned %d bytes, %s", op.N, len(m.queue), n, c21Diff(buf[:n], m.queue[:n]))
 					return
 				}
 				m.queue = m.queue[n:]
@@ -334,8 +357,10 @@ func c21RunSeq(tb ev.TB, rec *ev.Rec, c *c21Case, gen string) {
 	add(afterRelease, "write-after-release")
 	add(reuse, "pool-reuse-after-release")
 	add(eofReplaced, "eof-replaced-by-error")
+	add(c.Cap > 65536, "cap>64KiB")
+	add(backlog64k, "backlog-crosses-64KiB-with-r>0")
 	rec.Add("seq_ops_skipped_not_enabled", int64(skipped))
-	rec.Case("seq:"+fpr.String(), slideWrite || closeBuffered, classes...)
+	rec.Case("seq:"+fpr.String(), slideWrite || closeBuffered || backlog64k, classes...)
 }
 
 func c21GenSeq(rt *rapid.T) *c21Case {
@@ -343,6 +368,16 @@ func c21GenSeq(rt *rapid.T) *c21Case {
 	c.Cap = rapid.IntRange(1, 24).Draw(rt, "cap")
 	c.Pooled = rapid.Bool().Draw(rt, "pooled")
 	n := rapid.IntRange(1, ev.N(40, 80)).Draw(rt, "nops")
+	// 1 case in ~16: windows around and above 64 KiB (h2 "isw" option -> NewPipeWithSize, pooled default 65535)
+	// with write/read sizes that let an unread backlog grow past 64 KiB / 128 KiB while partly consumed
+	maxW, maxR := c.Cap+2, c.Cap+2
+	if rapid.IntRange(0, 15).Draw(rt, "large") == 11 {
+		c.Cap = rapid.SampledFrom([]int{65535, 65536, 65537, 100000, 131072, 200000, 262144}).Draw(rt, "largeCap")
+		maxW, maxR = 45000, 30000
+		if n > 40 {
+			n = 40
+		}
+	}
 	errs := []string{"EOF", "A", "B"}
 	closed, released := false, false // rough generator-side state, only to steer the op mix
 	for i := 0; i < n; i++ {
@@ -369,13 +404,16 @@ func c21GenSeq(rt *rapid.T) *c21Case {
 		}
 		switch {
 		case k < 38:
-			sz := rapid.IntRange(0, c.Cap+2).Draw(rt, l+"n")
+			sz := rapid.IntRange(0, maxW).Draw(rt, l+"n")
+			if c.Cap > 24 && rapid.IntRange(0, 19).Draw(rt, l+"huge") == 7 {
+				sz = c.Cap - rapid.IntRange(0, 2).Draw(rt, l+"hm") + 1 // around the whole window
+			}
 			if rapid.IntRange(0, 3).Draw(rt, l+"small") > 0 && sz > c.Cap/2+1 {
 				sz = sz % (c.Cap/2 + 1)
 			}
 			c.Ops = append(c.Ops, c21Op{Op: "write", N: sz})
 		case k < 76:
-			c.Ops = append(c.Ops, c21Op{Op: "read", N: rapid.IntRange(0, c.Cap+2).Draw(rt, l+"n")})
+			c.Ops = append(c.Ops, c21Op{Op: "read", N: rapid.IntRange(0, maxR).Draw(rt, l+"n")})
 		case k < 82:
 			c.Ops = append(c.Ops, c21Op{Op: "close", Err: rapid.SampledFrom(errs).Draw(rt, l+"e")})
 		case k < 85:
@@ -452,9 +490,10 @@ func c21RunConcOnce(c *c21Conc, watchdog time.Duration) (c21ConcResult, string) 
 		p = pipe.NewPipeWithSize(uint32(c.Cap))
 	}
 	endErr := c21Errs[c.Err]
-	acks := make(chan int, len(c.Writes)*(c.Cap+2)+16) // reader -> writer: bytes consumed (window updates)
-	fire := make(chan struct{})                        // writer -> closer
-	var mu sync.Mutex                                  // protects res.problem
+	var acked int64                  // reader -> writer: bytes consumed so far (window updates)
+	notify := make(chan struct{}, 1) // wakes the writer after acked moved
+	fire := make(chan struct{})      // writer -> closer
+	var mu sync.Mutex                // protects res.problem
 	setProblem := func(k, f string, a ...any) {
 		mu.Lock()
 		if res.problem == "" {
@@ -476,25 +515,23 @@ func c21RunConcOnce(c *c21Conc, watchdog time.Duration) (c21ConcResult, string) 
 	wg.Add(1)
 	go func() {
 		defer wg.Done()
-		window := c.Cap
-		next := byte(1)
+		written := 0
 		fired := false
 		for i, sz := range c.Writes {
 			if (c.End == "break" || c.End == "close-early") && i == c.EndAfter && !fired {
 				close(fire)
 				fired = true
 			}
-			for window < sz {
+			for c.Cap-(written-int(atomic.LoadInt64(&acked))) < sz {
 				select {
-				case n := <-acks:
-					window += n
+				case <-notify:
 				case <-readerDone:
 					return
 				}
 			}
 			d := make([]byte, sz)
 			for j := range d {
-				d[j] = next + byte(j)
+				d[j] = c21Pat(written + j)
 			}
 			yield(i)
 			n, err := p.Write(d)
@@ -503,8 +540,7 @@ func c21RunConcOnce(c *c21Conc, watchdog time.Duration) (c21ConcResult, string) 
 				return
 			}
 			accepted = append(accepted, d[:n]...)
-			next += byte(n)
-			window -= n
+			written += n
 			if err != nil {
 				if n != 0 {
 					setProblem("partial-write-on-closed-pipe", "window-conforming Write(%d) returned (%d, %v)", sz, n, err)
@@ -549,7 +585,11 @@ func c21RunConcOnce(c *c21Conc, watchdog time.Duration) (c21ConcResult, string) 
 			}
 			res.got = append(res.got, buf[:n]...)
 			if n > 0 {
-				acks <- n
+				atomic.AddInt64(&acked, int64(n))
+				select {
+				case notify <- struct{}{}:
+				default:
+				}
 			}
 			if err != nil {
 				res.readErr = err
@@ -599,6 +639,9 @@ func c21RunConcOnce(c *c21Conc, watchdog time.Duration) (c21ConcResult, string) 
 func c21CheckConc(outer, tb ev.TB, rec *ev.Rec, c *c21Conc) {
 	fpr := fmt.Sprintf("conc:%+v", *c)
 	classes := []string{"concurrent", "conc-end-" + c.End}
+	if c.Cap > 65536 {
+		classes = append(classes, "conc-cap>64KiB")
+	}
 	if c.Pooled {
 		classes = append(classes, "conc-pooled")
 	}
@@ -628,7 +671,7 @@ func c21CheckConc(outer, tb ev.TB, rec *ev.Rec, c *c21Conc) {
 		return
 	}
 	if !bytes.HasPrefix(res.accepted, res.got) {
-		rec.Fail(tb, "conc-wrong-bytes", w, "reader got %x which is not a prefix of the accepted stream %x", res.got, res.accepted)
+		rec.Fail(tb, "conc-wrong-bytes", w, "reader got %d bytes which are not a prefix of the %d accepted bytes: %s; case %+v", len(res.got), len(res.accepted), c21Diff(res.got, res.accepted), *c)
 		return
 	}
 	if c.End != "break" && len(res.got) != len(res.accepted) {
@@ -651,8 +694,15 @@ func c21GenConc(rt *rapid.T) *c21Conc {
 	c := &c21Conc{}
 	c.Cap = rapid.IntRange(1, 16).Draw(rt, "cap")
 	c.Pooled = rapid.Bool().Draw(rt, "pooled")
-	c.Writes = rapid.SliceOfN(rapid.IntRange(1, c.Cap), 1, 40).Draw(rt, "writes")
-	c.Reads = rapid.SliceOfN(rapid.IntRange(1, c.Cap+3), 1, 8).Draw(rt, "reads")
+	if rapid.IntRange(0, 9).Draw(rt, "large") == 7 {
+		// large h2 stream window: the writer may run up to a whole window ahead of the reader
+		c.Cap = rapid.SampledFrom([]int{65537, 131072, 262144}).Draw(rt, "largeCap")
+		c.Writes = rapid.SliceOfN(rapid.IntRange(1, 50000), 1, 12).Draw(rt, "writes")
+		c.Reads = rapid.SliceOfN(rapid.IntRange(1, 30000), 1, 8).Draw(rt, "reads")
+	} else {
+		c.Writes = rapid.SliceOfN(rapid.IntRange(1, c.Cap), 1, 40).Draw(rt, "writes")
+		c.Reads = rapid.SliceOfN(rapid.IntRange(1, c.Cap+3), 1, 8).Draw(rt, "reads")
+	}
 	c.End = rapid.SampledFrom([]string{"close", "close", "break", "close-early"}).Draw(rt, "end")
 	c.EndAfter = rapid.IntRange(0, len(c.Writes)-1).Draw(rt, "endAfter")
 	c.Err = rapid.SampledFrom([]string{"EOF", "A", "B"}).Draw(rt, "err")
@@ -661,7 +711,7 @@ func c21GenConc(rt *rapid.T) *c21Conc {
 }
 
 func TestC21(t *testing.T) {
-	rec := ev.New("C21", "sequential: 1..40 ops (write 0..cap+2 bytes, read 0..cap+2, CloseWithError/CloseWithErrorAndCode/BreakWithError with EOF|A|B, Release, next pipe from the same pool, Err/Done) on NewPipeWithSize(1..24) or pooled pipes, against a byte-queue model; blocking reads are only issued when the model has data/closure. concurrent: writer (window-limited like h2 flow control) + reader + closer goroutines with generated chunk/yield plans under -race; a hang is reported only as a proven deadlock (all goroutines of the case parked), slowness is inconclusive. non-trivial: a write slides unread data (r>0) or a close arrives with buffered data; every concurrent case; distinct by op list")
+	rec := ev.New("C21", "sequential: 1..40 ops (write 0..cap+2 bytes, read 0..cap+2, CloseWithError/CloseWithErrorAndCode/BreakWithError with EOF|A|B, Release, next pipe from the same pool, Err/Done) on NewPipeWithSize(1..24; 1 case in ~16: 65535..262144 with writes up to 45000 and reads up to 30000 bytes) or pooled pipes of the same sizes, against a byte-queue model; blocking reads are only issued when the model has data/closure. concurrent: writer (window-limited like h2 flow control) + reader + closer goroutines with generated chunk/yield plans under -race; a hang is reported only as a proven deadlock (all goroutines of the case parked), slowness is inconclusive. non-trivial: a write slides unread data (r>0) or a close arrives with buffered data; every concurrent case; distinct by op list")
 	if w := replayWitness(t); w != nil {
 		if w["concurrent"] != nil {
 			c := &c21Conc{}
@@ -674,10 +724,18 @@ func TestC21(t *testing.T) {
 		}
 		return
 	}
-	// deterministic scenarios
-	for _, pooled := range []bool{false, true} {
+	// deterministic scenarios (VERIF_NO_SCENARIOS=1: development aid to measure what the generated part finds alone)
+	scen := []bool{false, true}
+	if os.Getenv("VERIF_NO_SCENARIOS") != "" {
+		scen = nil
+	}
+	for _, pooled := range scen {
 		c21RunSeq(t, rec, &c21Case{Cap: 8, Pooled: pooled, Ops: []c21Op{{Op: "write", N: 6}, {Op: "read", N: 4}, {Op: "write", N: 5}, {Op: "read", N: 20}, {Op: "write", N: 8}, {Op: "write", N: 1}, {Op: "close", Err: "A"}, {Op: "read", N: 3}, {Op: "err"}, {Op: "read", N: 9}, {Op: "read", N: 1}, {Op: "release"}, {Op: "read", N: 1}, {Op: "write", N: 1}, {Op: "newpipe"}, {Op: "write", N: 2}, {Op: "read", N: 8}}}, "scenario")
 		c21RunSeq(t, rec, &c21Case{Cap: 4, Pooled: pooled, Ops: []c21Op{{Op: "write", N: 4}, {Op: "closefn", Err: "EOF"}, {Op: "close", Err: "B"}, {Op: "read", N: 2}, {Op: "break", Err: "A"}, {Op: "read", N: 2}, {Op: "err"}}}, "scenario")
+	}
+	// large (non default) h2 stream window: backlog crosses 64 KiB and 128 KiB while partly consumed
+	for _, pooled := range scen {
+		c21RunSeq(t, rec, &c21Case{Cap: 262144, Pooled: pooled, Ops: []c21Op{{Op: "write", N: 60000}, {Op: "read", N: 10000}, {Op: "write", N: 20000}, {Op: "read", N: 5000}, {Op: "write", N: 70000}, {Op: "read", N: 30000}, {Op: "write", N: 90000}, {Op: "close", Err: "EOF"}, {Op: "read", N: 300000}, {Op: "read", N: 1}}}, "scenario")
 	}
 	rapid.Check(t, func(rt *rapid.T) {
 		// 1 case in 20 is a concurrent one (scheduled by the Go runtime: the plan is the witness)
